@@ -1,4 +1,5 @@
 import EpModel.Lemmas.StructSlice
+import EpModel.Lemmas.StructSliceLax
 /-
   C04 — decoding into header structs agrees with slicing.
 
@@ -21,9 +22,15 @@ import EpModel.Lemmas.StructSlice
       payload covers the same byte range (`PayAgree`);
     * `from_ip`: the struct door checks `len < 20` before the IHL and the slice door does not - on an
       IPv4 nibble in fewer than 20 bytes both reject with different (both true, see C03 `ShortV4`) errors.
-  Not proved (correspondence + oracle only): the lax pair LaxPacketHeaders / LaxSlicedPacket, link-level
-  payloads (`PayAgree` says nothing when neither a network nor a transport layer was decoded), and that the
-  header *values* extracted from equal windows are equal (that is C08 / C15).
+    * the lax pair (LaxPacketHeaders vs LaxSlicedPacket, three doors): the same Err verdict on the first
+      header, and otherwise the same headers, payload range and `incomplete` flag and the same stop error
+      on the same layer (`LaxAgree`) - up to two documented differences in the wording of a stop error:
+      the struct family keeps `Slice` as length source where the cursor propagates an outer limiter
+      (`StopAgree`), and an IPv4 nibble in fewer than 20 bytes is named differently by the two IP doors
+      (`ShortV4Stops`) - or the same documented exception (`EarlyLax`).
+  Not proved (correspondence + oracle only): link-level payloads (`PayAgree` says nothing when neither a
+  network nor a transport layer was decoded), the Linux SLL door of LaxPacketHeaders, and that the header
+  *values* extracted from equal windows are equal (that is C08 / C15).
 -/
 namespace EpModel.Props.C04
 open EpModel EpModel.Dec EpModel.Lemmas.StructSlice
@@ -77,6 +84,35 @@ theorem headers_from_ip_agree_with_slicing (b : Bytes) :
       Verdict (memOf b) 0 Packet.empty Packet.empty (slicedFromIp (memOf b) b.length)
         (phFromIp (memOf b) b.length) :=
   from_ip_agree (memOf b) b.length
+
+/-! ### the lax pair -/
+
+/-- LaxPacketHeaders::from_ether_type vs LaxSlicedPacket::from_ether_type -/
+theorem lax_headers_from_ether_type_agree_with_slicing (et : Nat) (b : Bytes) :
+    LaxAgree (memOf b) 0 (lphFromEtherType (memOf b) et 0 b.length) (laxSlicedFromEtherType (memOf b) et b.length)
+        Packet.empty (Packet.empty.setLink (.etherPayload et ⟨0, b.length⟩)) ∨
+      EarlyLax (lphFromEtherType (memOf b) et 0 b.length) :=
+  lax_from_ether_type_agree (memOf b) et b.length
+
+/-- LaxPacketHeaders::from_ethernet vs LaxSlicedPacket::from_ethernet -/
+theorem lax_headers_from_ethernet_agree_with_slicing (b : Bytes) :
+    match laxSlicedFromEthernet (memOf b) b.length, lphFromEthernet (memOf b) b.length with
+    | .ok p, .ok x =>
+      (x.p.link = some (.eth2 ⟨0, 14⟩) ∧ p.link = some (.eth2 ⟨0, b.length⟩) ∧ x.p.exts = p.exts.map hdrExt ∧
+        NetAgree x.p.net p.net ∧ x.p.tp = p.tp ∧
+        (StopAgree 0 x.p.stop p.stop ∨ ShortV4Stops (memOf b) x.p.stop p.stop) ∧
+        PayAgreeLax (memOf b) x.pay p) ∨ EarlyLax x
+    | .error e, .error e' => e = e'
+    | _, _ => False :=
+  lax_from_ethernet_agree (memOf b) b.length
+
+/-- LaxPacketHeaders::from_ip vs LaxSlicedPacket::from_ip -/
+theorem lax_headers_from_ip_agree_with_slicing (b : Bytes) :
+    match laxSlicedFromIp (memOf b) b.length, lphFromIp (memOf b) b.length with
+    | .ok p, .ok x => LaxAgree (memOf b) 0 x p Packet.empty Packet.empty ∨ EarlyLax x
+    | .error e, .error e' => e = e' ∨ (memOf b 0 / 16 = 4 ∧ b.length < 20)
+    | _, _ => False :=
+  lax_from_ip_agree (memOf b) b.length
 
 /-- consequence: slicing never accepts what struct decoding rejects -/
 theorem struct_rejects_implies_slicing_rejects (et : Nat) (b : Bytes) (e : PErr)
